@@ -29,6 +29,14 @@ def raising_ifs(fnode, nested=False):
             out.append((n.test, n, False))
         if isinstance(n, ast.Assert):
             out.append((n.test, n, None))
+        # `if T: ..; return` immediately followed by `raise`: the raise is the else branch of that test
+        for fld in ("body", "orelse", "finalbody"):
+            lst = getattr(n, fld, None)
+            if isinstance(lst, list):
+                for i in range(1, len(lst)):
+                    prev = lst[i - 1]
+                    if isinstance(lst[i], ast.Raise) and isinstance(prev, ast.If) and not prev.orelse and prev.body and isinstance(prev.body[-1], (ast.Return, ast.Continue, ast.Break)):
+                        out.append((prev.test, prev, False))
     return out
 
 
@@ -243,7 +251,8 @@ def r20_1(ctx):
     conts = [c for c in walk_no_nested(f.node) if isinstance(c, ast.Continue)]
     ok = True
     for c in conts:
-        ts = [norm_text(t) for t, p in sc.guards(c) if p]
+        from ..paths import canon_guard
+        ts = [canon_guard(t, p)[0].replace(" ", "").replace('"', "'") for t, p in sc.path_guards(c) if canon_guard(t, p)[1]]
         ok = ok and any("is_constant()" in t and "is_one()" in t for t in ts)
     ctx.check(ok, "transcribe_placeholders: only constant-TRUE constraints are skipped", detail="a constraint that becomes constant-false after substitution is silently dropped",
               expected="continue only under MX(c).is_constant() and MX(c).is_one()", found="; ".join(ast.unparse(t) for c in conts for t, p in sc.guards(c)), fi=f)
@@ -419,7 +428,9 @@ def r20_6(ctx):
                 if isinstance(c, ast.Call) and any(g in splitters for g in P.resolve_call(f, c)):
                     link_names[st.targets[0].id] = (st, c)
     for s in skips:
-        gs = sc.guard_conjuncts(s)
+        from ..paths import canon_guard
+        gs = [(ast.parse(canon_guard(g, p)[0], mode="eval").body, canon_guard(g, p)[1]) for g, p in sc.path_guards(s)]
+        gs = [(g, p) for g, p in gs if p]
         names = {x.id for g, p in gs for x in ast.walk(g) if isinstance(x, ast.Name)}
         ok = bool(names & set(link_names))
         ctx.check(ok, "OptiWrapper.transcribe_placeholders skips a constant constraint only when every link of the chain holds", detail="a false two-sided constraint on a fixed horizon is silently dropped (and a true one rejected)",
